@@ -607,9 +607,9 @@ def run(tier):
     if not mexe: return ck.finish(trusted=TRUSTED)
     orc = Oracle(ck, iexe); rng = ck.rng
     q = tier == 'quick'
-    objs = (gen_direct(rng, 1200 if q else 30000) + gen_malformed(rng, 400 if q else 8000)
-            + gen_e2e(rng, 150 if q else 3000, 6 if q else 8) + gen_fmt(rng, 500 if q else 10000)
-            + gen_state(rng, 300 if q else 6000))
+    objs = (gen_direct(rng, 3000 if q else 40000) + gen_malformed(rng, 800 if q else 10000)
+            + gen_e2e(rng, 300 if q else 4000, 6 if q else 9) + gen_fmt(rng, 1000 if q else 15000)
+            + gen_state(rng, 600 if q else 8000))
     tm = orc.times([o['st']['ts'] for o in objs if o['mode'] == 0])
     for o in objs:
         if o['mode'] == 0: o['st']['time'] = tm[o['st']['ts']]
@@ -686,6 +686,7 @@ def shrink_case(ck, mexe, iexe, orc, case, mode):
         dd = dict(d); dd['st'] = dict(d['st'])
         if k == 'pattern': dd['pattern'] = v
         else: dd['st'][k] = v
+        if k == 'msg' and d['mode'] == 1 and d['site'] == 3: dd['st']['nargs'] = [(SITES[3][5], v)]
         return dd
     try:
         # pattern: drop whole fields / literal runs, then message bytes, then other values
@@ -694,6 +695,7 @@ def shrink_case(ck, mexe, iexe, orc, case, mode):
             toks = ddmin(toks, lambda t: fails(with_('pattern', b''.join(t))), max_tests=60)
             d = with_('pattern', b''.join(toks))
         for k in ('msg', 'func', 'logger', 'tname'):
+            if k == 'func' and d['mode'] == 1 and d['site'] != 0: continue    # a constant of the call site
             v = d['st'][k]
             if len(v) >= 2:
                 nv = bytes(ddmin(list(v), lambda t: fails(with_(k, bytes(t))), max_tests=40))
